@@ -20,7 +20,6 @@ NA = {
 PENDING = {
     "C05": "claimed in DESIGN.md (engine job) but the check is not built yet; listed here until it is",
     "C06": "claimed in DESIGN.md (engine job, scoped) but the check is not built yet; listed here until it is",
-    "C16": "claimed in DESIGN.md (engine run) but the check is not built yet; listed here until it is",
     "C17": "claimed in DESIGN.md (engine loc) but the check is not built yet; listed here until it is",
 }
 
@@ -39,11 +38,21 @@ CHECKS = {
                 note="Scoped claim: 'complete package whenever translation returns', incl. under injected I/O errors. Not claimed: "
                      "declared-once / in-scope / type-consistent C++ (pure function of the query).",
                 technique="deterministic simulation: fault enumeration over the I/O calls of the write phase at a monkeypatched open/chmod seam"),
+    "C16": dict(engine="run", level="fault_enumeration", design="5",
+                text="The three rendered runner.sh run unmodified (paths relocated) under stub tools with a per-invocation fault "
+                     "plan. The single-fault space script x flag set x container variant x tool call x {fail-before, "
+                     "fail-after-partial} is enumerated completely; seeded histories of 1-6 invocations with 0-2 faults each are "
+                     "sampled on top. A reference model of the documented behaviour judges exit status, command log and destination.",
+                note="Trusted: the stub tools' minimum contract (DESIGN.md 5.1), prefix relocation of container paths, the 40-line "
+                     "reference model. Unspecified behaviour (rebuild in a dirty directory, -r without build, -c -r) is not asserted.",
+                technique="deterministic simulation: script under stub tools on PATH, fault plan per tool call, reference model over invocation histories"),
 }
 
 ENGINES = [
     {"name": "svc", "path": "sim/svc", "serves_properties": ["C07", "C02"],
      "kind_free_text": "translator as a long-lived service: seeded histories, injected I/O errors and aborts, fresh-process reference"},
+    {"name": "run", "path": "sim/run", "serves_properties": ["C16"],
+     "kind_free_text": "rendered runner.sh in a simulated container: stub experiment tools on PATH, per-call fault plan, invocation histories"},
 ]
 
 
